@@ -541,6 +541,31 @@ SETTERS = ('thread_local_value_scope', 'thread_local_arg_scope', 'thread_local_s
 GETTERS = ('thread_local_get', 'thread_local_peek', 'thread_local_has', 'thread_local_kwargs')
 
 
+def scope_installs_param(func):
+  """Problems (list) if a flags scope function does not hand its first
+  parameter, unmodified on every path, to thread_local_value_scope."""
+  g = C.cfg_of(func.node)
+  problems = []
+  p0 = func.node.args.args[0].arg if func.node.args.args else None
+  nodes = [(k, c) for k in g.nodes if k.ast is not None for c in k.calls()
+           if (A.call_name(c) or '').endswith('thread_local_value_scope')]
+  if not nodes:
+    return ['no thread_local_value_scope call']
+  for k, call in nodes:
+    if len(call.args) < 2 or not (isinstance(call.args[1], ast.Name) and call.args[1].id == p0):
+      problems.append('the scope does not install its argument')
+      continue
+    rds = D.reaching_defs(g, k, p0)
+    if any(val is not None or dn is not g.entry for dn, val in rds):
+      problems.append(f'`{p0}` is re-assigned before it is installed (the scope no longer '
+                      f'installs exactly the value it was given, e.g. None = "no override")')
+  # every normal path returns the scope
+  rets = [k for k in g.nodes if k.kind == 'return']
+  if any(not any(c is call for _, call in nodes for c in r.calls()) for r in rets):
+    problems.append('a path returns something other than the scope')
+  return problems
+
+
 def rule_f(ctx):
   idx = ctx.index
   uses = {}
@@ -596,11 +621,7 @@ def rule_f(ctx):
     if len(gt) != 1:
       problems.append(f'{len(gt)} getters read this key: {[f.name for f in gt]}')
     if sc:
-      # the scope installs its first parameter
-      call = [c for c in A.calls_in(sc[0].node) if (A.call_name(c) or '').endswith('thread_local_value_scope')][0]
-      p0 = sc[0].node.args.args[0].arg if sc[0].node.args.args else None
-      if len(call.args) < 2 or not (isinstance(call.args[1], ast.Name) and call.args[1].id == p0):
-        problems.append('the scope does not install its argument')
+      problems += scope_installs_param(sc[0])
     ctx.ob('C17.f', f'flags:{kv}', not problems,
            'each flag key has exactly one scope (installing its argument) and one getter',
            (sc or gt)[0].loc, '; '.join(problems))
